@@ -406,7 +406,7 @@ type PR<T> = Result<T, String>;
 
 impl<'a> Parser<'a> {
     pub fn new(data: &'a [u8]) -> Self {
-        Parser { data, max_depth: 256, strict: true }
+        Parser { data, max_depth: 4096, strict: true }
     }
 
     pub fn parse_all(&self) -> PR<P> {
